@@ -600,6 +600,11 @@ static int t_mpz_tdiv_qr (const char *f, int budget)
       else if (al == 4) { mpz_set (r, d); pd = r; } else if (al == 5) { mpz_set (q, n); mpz_set (r, d); pn = q; pd = r; } else if (al == 6) { if (mpz_sgn (n) == 0) mpz_set_si (n, -7); pd = pn; }
       if (it % 3 == 0) { mpz_realloc2 (q, 64 * (abs (q->_mp_size) ? abs (q->_mp_size) : 1)); mpz_realloc2 (r, 64 * (abs (r->_mp_size) ? abs (r->_mp_size) : 1)); }
       R rn, rd; r_from_mpz (&rn, pn); r_from_mpz (&rd, pd);
+      if (!strcmp (f, "mpz_tdiv_q"))        /* quotient only: the remainder comes from an unaliased tdiv_r on copies */
+        { mpz_t n2, d2; mpz_init_set (n2, pn); mpz_init_set (d2, pd); if (pn == r) pn = n2; if (pd == r) pd = (al == 6 ? pn : d2); mpz_tdiv_q (q, pn, pd); mpz_tdiv_r (r, n2, d2); mpz_clear (n2); mpz_clear (d2); }
+      else if (!strcmp (f, "mpz_tdiv_r"))
+        { mpz_t n2, d2; mpz_init_set (n2, pn); mpz_init_set (d2, pd); if (pn == q) pn = n2; if (pd == q) pd = (al == 6 ? pn : d2); mpz_tdiv_r (r, pn, pd); mpz_tdiv_q (q, n2, d2); mpz_clear (n2); mpz_clear (d2); }
+      else
       mpz_tdiv_qr (q, r, pn, pd);
       R rq, rr, prod, sum; r_from_mpz (&rq, q); r_from_mpz (&rr, r);
       prod.n = ref_mul (prod.d, rq.d, rq.n, rd.d, rd.n); prod.neg = prod.n ? (rq.neg != rd.neg) : 0;
@@ -647,7 +652,7 @@ int main (int argc, char **argv)
   if (!strcmp (f, "mpn_cmp") || !strcmp (f, "mpn_zero_p") || !strncmp (f, "mpn_scan", 8) || !strcmp (f, "mpn_popcount") || !strcmp (f, "mpn_hamdist")) return t_mpn_pred (f, budget);
   if (!strcmp (f, "mpz_add") || !strcmp (f, "mpz_sub")) return t_mpz_aors (f, budget);
   if (!strcmp (f, "mpz_mul")) return t_mpz_mul (f, budget);
-  if (!strcmp (f, "mpz_tdiv_qr")) return t_mpz_tdiv_qr (f, budget);
+  if (!strcmp (f, "mpz_tdiv_qr") || !strcmp (f, "mpz_tdiv_q") || !strcmp (f, "mpz_tdiv_r")) return t_mpz_tdiv_qr (f, budget);
   if (!strcmp (f, "mpz_add_ui") || !strcmp (f, "mpz_sub_ui") || !strcmp (f, "mpz_ui_sub") || !strcmp (f, "mpz_com")) return t_mpz_ui (f, budget);
   if (!strcmp (f, "mpz_neg") || !strcmp (f, "mpz_abs") || !strcmp (f, "mpz_set") || !strcmp (f, "mpz_swap")) return t_mpz_copy (f, budget);
   if (!strcmp (f, "mpz_cmp") || !strcmp (f, "mpz_cmpabs")) return t_mpz_cmp (f, budget);
